@@ -29,9 +29,21 @@ def load_hooks():
     return mod
 
 
+def enabled_units():
+    """Units listed in units/enabled.txt take part in checks (others are work in progress).
+    VERIF_ALL_UNITS=1 lifts the filter (used while developing a unit)."""
+    p = os.path.join(UNITS, 'enabled.txt')
+    if os.environ.get('VERIF_ALL_UNITS') or not os.path.exists(p):
+        return None
+    return set(x.strip() for x in open(p) if x.strip() and not x.startswith('#'))
+
+
 def units_serving(pid):
     res = []
+    en = enabled_units()
     for p in sorted(glob.glob(os.path.join(UNITS, '*.unit.rs'))):
+        if en is not None and os.path.basename(p)[:-len('.unit.rs')] not in en:
+            continue
         txt = open(p).read()
         m = re.search(r'^//@ serves (.*)$', txt, re.M)
         if m and pid in m.group(1).split():
